@@ -128,7 +128,7 @@ def render(p, rng, drop=(), override=None, both_levels=True):
             text = v
             toks.append("%s=S:%s" % (lk, v))
         emit(key, text, None)
-    text = "\n".join(lines) + "\n"
+    text = "\n".join(lines) + ("\n" if rng.random() < 0.7 else "")       # the last line of a file need not end in a newline
     return text, ";".join(toks)
 
 
